@@ -12,7 +12,7 @@ PATCH=$1; TIER=$2; shift 2
 case "$PATCH" in none|/*) ;; *) PATCH="$PWD/$PATCH";; esac
 S=${SCRATCH_ROOT:-/tmp/sx}/$$
 mkdir -p "$S"
-cleanup() { git -C /repo worktree remove --force "$S/repo" >/dev/null 2>&1; rm -rf "$S"; git -C /repo worktree prune >/dev/null 2>&1; }
+cleanup() { [ -n "${KEEP_SCRATCH:-}" ] && return;  git -C /repo worktree remove --force "$S/repo" >/dev/null 2>&1; rm -rf "$S"; git -C /repo worktree prune >/dev/null 2>&1; }
 trap cleanup EXIT
 git -C /repo worktree add -q --detach "$S/repo" HEAD || exit 2
 if [ "$PATCH" != none ]; then
@@ -32,5 +32,5 @@ for ch in "$@"; do
 	first=$(echo "$out" | grep '^VIOLATION' | head -1 | sed 's/.*replays\///')
 	echo "$ch $TIER exit=$rc violations=$n known=$k seconds=$(( $(date +%s) - s )) first=$first"
 	if [ $rc -ge 2 ]; then tail -5 "$S/err.txt" | sed 's/^/    /'; fi
-	if [ -n "${KEEP_OUT:-}" ]; then { echo "== $ch"; echo "$out" | head -40; grep -v '^\[' "$S/err.txt" | tail -20; } >> "$KEEP_OUT"; fi
+	if [ -n "${KEEP_OUT:-}" ]; then { echo "== $ch"; echo "$out" | head -40; tail -40 "$S/err.txt"; } >> "$KEEP_OUT"; fi
 done
